@@ -23,6 +23,9 @@ CLAIMS = {
  "C07": dict(cat="other", tech="static analysis: argument-provenance (def-use slices) at every memory call site, dominance rules for the context switch, abstract interpretation of System::start_call/start_syscall/restore_context, evaluated constants vs the documented memory layout, guardedness of address arithmetic",
    text="Every memory access of the operation handlers passes exactly self.system.ctx() as context and an address that went through get_valid_address (the 2^32 check); the memory map is keyed by the ctx parameter, vacant reads give the zero word, an element store keeps elements 1..3; start_call_block snapshots (ctx, fn_hash, fmp, depth, overflow address) in the order ExecutionContextInfo stores them and end_call_block restores from the like-named fields after the depth > 16 rejection; the syscall path runs access_kernel_proc(..)? before switching context; caller is gated by in_syscall and returns fn_hash; the assembler rejects call/syscall in kernels and caller outside; FMP_MIN, SYSCALL_FMP_MIN and FMP_MAX equal the documented layout (2^30, 2^31, 3*2^30-1) and start_call/start_syscall/restore_context set fmp/ctx/in_syscall/fn_hash accordingly; u32 additions on addresses must be guarded.",
    note="Trusted: " + TB + "; mirsym; docs/src/user_docs/assembly/execution_contexts.md as oracle for the layout. Not decided: memory contents over histories.", ref="§3 C07"),
+ "C10": dict(cat="other", tech="static analysis: abstract interpretation of every write_into / read_from pair (recording writer, replaying reader over symbolic values); comparison of the rebuilt symbolic value with the original",
+   text="For every Serializable/Deserializable pair of the workspace (230 Instruction variants, 233 opcodes, advice injectors, nodes, procedure/program/module ASTs under both serde options, imports, library paths/namespaces/versions, procedure names/ids, source locations, kernels, program info, stack inputs/outputs, public inputs, hash function tags, execution proofs) the writer is interpreted on a symbolic instance of each enum variant and the reader on the recorded token stream: widths, tags, order, counts, left-over tokens and the rebuilt value are compared. Immediates are symbolic, so agreement holds for every immediate value; collection lengths are representative.",
+   note="Trusted: " + TB + "; mirsym and the serde model (winter-utils ByteReader/ByteWriter modelled per method; label/path validators abstract). MaslLibrary is not covered (path arithmetic on symbolic strings). Equality of recompiled MAST roots is not decided.", ref="§3 C10"),
 }
 
 NA = {
